@@ -46,7 +46,6 @@ NumToByte(B, n) ==
       pad == [i \in 1..(8 * n - Len(low)) |-> 0] \o low
   IN  [i \in 1..n |-> NumVal(SubSeq(pad, 8 * (i - 1) + 1, 8 * i))]
 NumOfInt(x, width) == toNum(toByte(x, Ceil(width, 8)))     \* small integer -> numeral
-NumEq(A, B) == NumToByte(A, 16) = NumToByte(B, 16)          \* equality of values below 2^128
 
 \* ---- Algorithm 4  base_2b(X, b, out_len)
 \* Transcribed with its three counters.  `total` is an unbounded integer in the standard; only
